@@ -443,7 +443,23 @@ def mk_stream(sizes, skip=0, seed=1):
     return out
 
 
+def _ascii_print(*a, sep=" ", end="\n", file=None, flush=False):
+    """print() to a standard output that can only encode ASCII (a legacy console, a redirect with PYTHONIOENCODING=ascii)."""
+    text = sep.join(str(x) for x in a) + end
+    try:
+        text.encode("ascii")
+    except UnicodeEncodeError as e:
+        from ..interp import ExcVal
+        raise Raised(ExcVal("UnicodeEncodeError", (e.reason,)))
+    return None
+
+
 def run_framer(h: Harness, source, **kw):
+    kw = dict(kw)
+    if kw.pop("__ascii_stdout__", False):
+        h.it.ext["print"] = _ascii_print
+    else:
+        h.it.ext.pop("print", None)
     args = ", ".join(f"{k}={k}" for k in kw)
     h.it.events.clear()
     size = len(source) if isinstance(source, (bytes, bytearray)) else int(source.attrs.get("__size__", 4096))
@@ -491,6 +507,13 @@ def sources_for(stream: bytes, level: int):
         out.append(("file(handle at byte 6, read=None)", lambda: file_source(stream, 6), {}))
         out.append(("file(handle at byte 2, read=7)", lambda: file_source(stream, 2), {"buffer_read_size_bytes": 7}))
         out.append(("file(handle at end, read=None)", lambda: file_source(stream, n), {}))
+        # ... also when the rest of the handle happens to end on a packet boundary (the caller read exactly the first packet(s))
+        pos = 0
+        for i, fr in enumerate(ref_frames(stream, 0)[:3]):
+            pos += len(fr)
+            if 0 < pos < n:
+                out.append((f"file(handle after {i + 1} packet(s) = byte {pos}, read=None)", (lambda pos=pos: file_source(stream, pos)), {}))
+                out.append((f"file(handle after {i + 1} packet(s) = byte {pos}, read=5)", (lambda pos=pos: file_source(stream, pos)), {"buffer_read_size_bytes": 5}))
     # a file object whose read(n) returns fewer bytes than asked for before the end of the file (legal for buffered readers over
     # interactive raw streams): only an empty result means end of file
     out.append(("file(short reads of 3, read=7)", lambda: file_source(stream, max_chunk=3), {"buffer_read_size_bytes": 7}))
@@ -498,10 +521,18 @@ def sources_for(stream: bytes, level: int):
     # a file that lives on disk (has a descriptor; can be memory-mapped unless it is empty) behaves like any other file
     out.append(("file(on disk, read=None)", lambda: file_source(stream, on_disk=True), {}))
     out.append(("file(on disk, read=7)", lambda: file_source(stream, on_disk=True), {"buffer_read_size_bytes": 7}))
+    # a handle whose descriptor holds fewer bytes than the stream delivers (read/write handle with unflushed writes, a
+    # decompressing wrapper passing its descriptor through): the stream is what read() and seek() see
+    fr0 = ref_frames(stream, 0)
+    if len(fr0) >= 2:
+        k = len(fr0[0])
+        out.append((f"file(descriptor holds only the first {k} bytes, read=None)", (lambda k=k: file_source(stream, on_disk=True, disk_size=k)), {}))
+        out.append((f"file(descriptor holds only the first {k} bytes, read=7)", (lambda k=k: file_source(stream, on_disk=True, disk_size=k)), {"buffer_read_size_bytes": 7}))
     # the progress display is cosmetic: same packets with it switched on, for every kind of source
     out.append(("bytes, show_progress", lambda: stream, {"show_progress": True}))
     out.append(("file(read=7), show_progress", lambda: file_source(stream), {"buffer_read_size_bytes": 7, "show_progress": True}))
     out.append(("socket(whole), show_progress", lambda: socket_source([stream]), {"show_progress": True}))
+    out.append(("bytes, show_progress on an ASCII-only standard output", lambda: stream, {"show_progress": True, "__ascii_stdout__": True}))
     # a connection that stays open after the last byte: every complete packet must already have been yielded
     for i, fr in enumerate(frag_sets[:4]):
         out.append((f"live-socket(frag#{i})", (lambda fr=fr: socket_source(fr, stays_open=True)), {}))
